@@ -108,8 +108,17 @@ func c16Family(j *Job) []xferCase {
 }
 
 func c16EndToEnd(j *Job) {
-	if !j.mine(5) && false {
-		return
+	// stream reset / reopen cycles with reconfiguration sequence numbers running past their wrap
+	for _, mode := range stdModes() {
+		for ti, tp := range [][2]uint32{{0xFFFFFFFF, 0xFFFFFFFF}, {0xFFFFFFFE, 0x7FFFFFFF}, {1000, 70000}} {
+			spec := &resetSpec{A: withBase(mode.A, 100, tp[0], 4000), B: withBase(mode.B, 100, tp[1], 4000), SIDs: []uint16{5}, Sizes: []int{9, 150}, Cycles: 3,
+				Faults: allFaults, SSNStart: 65535, MIDStart: 0xFFFFFFFF, BackSizes: []int{12}}
+			k := 0
+			if ti == 0 {
+				k = 1
+			}
+			j.Explore(fmt.Sprintf("reset-wrap/%s/tsn%d", mode.Name, ti), resetScenario(spec), Budget{K: k}, nil)
+		}
 	}
 	cases := c16Family(j)
 	ref := shiftCfg{tsnA: 1000, tsnB: 70000}
